@@ -212,6 +212,23 @@ def r_forms(ctx, rule='R-FORM'):
                                 if e[0] == 'bool' and e[2] and strip(e[1])[0] == 'binop' and strip(e[1])[1] == 'Gt' and strip_all(strip(e[1])[2]) == strip_all(den):
                                     eps = strip(strip(e[1])[3])
                                     gd = eps[0] == 'const' and 0 < f32_of_bits(eps[2]) < 1e-3 and paths.edge_dominates(f, s, x, b)
+                    if not gd:
+                        # early-return spelling: `if den.is_nan() || den <= EPSILON { return 0.0 }` -- the main branch lies on the
+                        # false edges of both tests (NaN is excluded explicitly, as `den > EPSILON` excluded it implicitly)
+                        for b, k, t in rets:
+                            if strip(t)[0] == 'const':
+                                continue
+                            le_false = nan_false = False
+                            for s, x, e in paths.controlling_conds(f, b):
+                                if e[0] != 'bool' or e[2] or not paths.edge_dominates(f, s, x, b):
+                                    continue
+                                c0 = strip(e[1])
+                                if c0[0] == 'binop' and c0[1] == 'Le' and strip_all(c0[2]) == strip_all(den):
+                                    eps = strip(c0[3])
+                                    le_false = eps[0] == 'const' and 0 < f32_of_bits(eps[2]) < 1e-3
+                                if c0[0] == 'call' and c0[1].endswith('f32>::is_nan') and c0[2] and strip_all(c0[2][0]) == strip_all(den):
+                                    nan_false = True
+                            gd = le_false and nan_false
                     okshape = okshape and gd
             good = iv is not None and abs(iv[0]) < 1e-9 and abs(iv[1] - 1.0) < 1e-9 and okshape
             why = 'interval %s shape %s' % (iv, okshape)
